@@ -108,6 +108,28 @@ theorem change_min_ada (P : Params) (a : ChangeArgs) (cs : List Output) (h : cal
         rw [← he]; simp only; omega
     · intro o ho; right; exact changeLoop_min_ada P a.addr _ _ cs h o ho
 
+/-- **the change outputs `_add_change_and_fee` ADDS hold their minimum ADA**: when there is no output to merge the
+change into (merge_change off, or on without an output at the change address) the final output list is the requested
+outputs followed by change outputs each holding at least its minimum ADA -/
+theorem final_change_min_ada (P : Params) (outs fo : List Output) (a : ChangeArgs) (mc : Bool)
+    (h : finalOutputs P outs a mc = .ok fo) (hn : mergeIndex outs a mc = none) :
+    ∃ cs, fo = outs ++ cs ∧ ∀ o ∈ cs, (o.amount.ma = [] ∧ minAda P a.addr o.amount ≤ o.amount.coin) ∨
+              minAda P a.addr ⟨0, o.amount.ma⟩ ≤ o.amount.coin := by
+  unfold finalOutputs at h
+  split at h
+  · simp at h
+  · rename_i cs hcalc
+    simp only [Except.ok.injEq] at h
+    subst h
+    refine ⟨cs, ?_, ?_⟩
+    · rw [hn]; unfold mergeChanges; rfl
+    · have hr : (finalArgs outs a mc).respect = true := by simp [finalArgs, hn]
+      exact change_min_ada P (finalArgs outs a mc) cs hcalc hr
+
+/-- with merge_change off there is never a merge target -/
+theorem no_merge_target_when_off (outs : List Output) (a : ChangeArgs) : mergeIndex outs a false = none := by
+  simp [mergeIndex]
+
 /-- the refusal branches of `_calc_change` are exactly: requested not strictly below provided; ADA-only change
 below its minimum ADA (unless disabled); a bundle's minimum ADA not covered by the ADA left (unless disabled) -/
 theorem refuses_invalid_iff (P : Params) (a : ChangeArgs) :
@@ -261,3 +283,5 @@ end Pyc.C08
 #print axioms Pyc.C08.count_pos_iff
 #print axioms Pyc.C08.negative_iff
 #print axioms Pyc.C08.body_refuses_iff
+#print axioms Pyc.C08.final_change_min_ada
+#print axioms Pyc.C08.no_merge_target_when_off
